@@ -1127,9 +1127,9 @@ where
                 Node::Inner(node) if node.level() == level => {
                     let (t, e) = collect_children(node);
                     if manager.get_node(&e).is_terminal(&BDDTerminal::False) {
-                        (e, true)
+                        (t, true)
                     } else {
-                        (t, false)
+                        (e, false)
                     }
                 }
                 _ => (literal_set, false),
